@@ -116,6 +116,41 @@ Fixpoint c10_walk (acked : assignment) (acked_idle_known : bool) (prev : sc_obs)
     end
   | _ :: _, [] => false
   end.
+(* ---- C05 on the sidecar: the two counters the hand-over rule reads mean what it needs ----
+   "the destination reports at least three scrapes of it": the counter of a target that was not assigned before this
+   update starts at 0; "the source has scraped it three times since the move began": the counter restarts when a
+   normal copy is marked in_transfer and at no other update; every scrape of an assigned target adds exactly one; a
+   restart starts every counter again *)
+Definition c05_counter_ok (prev cur : sc_obs) (req : assignment) : bool :=
+  negb (hashes_unique req) ||
+  forallb (fun t =>
+    match find_sobs (t_hash t) (so_status cur) with
+    | None => false
+    | Some c =>
+      match find_sobs (t_hash t) (so_status prev) with
+      | None => N.eqb (sb_times c) 0
+      | Some p => N.eqb (sb_times c) (if tstate_eqb (sb_state p) Normal && tstate_eqb (t_state t) InTransfer then 0%N else sb_times p)
+      end
+    end) (all_targets req).
+Fixpoint c05_walk (prev : sc_obs) (ops : list sc_op) (seen : list sc_obs) : bool :=
+  match ops, seen with
+  | [], _ => true
+  | op :: ops', cur :: seen' =>
+    match op with
+    | OpUpdate req now ok => c05_counter_ok prev cur req
+    | OpScrape h r stopped =>
+      match find_sobs h (so_status prev), find_sobs h (so_status cur) with
+      | Some p, Some c => N.eqb (sb_times c) (sb_times p + 1)
+      | None, None => true
+      | _, _ => false
+      end
+    | OpRestart now => forallb (fun c => N.eqb (sb_times c) 0) (so_status cur)
+    end && c05_walk cur ops' seen'
+  | _ :: _, [] => false
+  end.
+Definition c05_sidecar_case (c : sc_case) : bool :=
+  match sk_seen c with first :: rest => c05_walk first (sk_ops c) rest | [] => false end.
+
 Definition c10_case (c : sc_case) : bool :=
   match sk_seen c with
   | first :: rest =>
